@@ -124,8 +124,8 @@ ApplyIO(st, s, B) ==
 \* A pointer variable holds (abstractly) the INDEX of the cell it points to; cells live in a "cells" variable whose
 \* value is a base-256 number (cell i = byte i: the 8 data bits of the i-th op of a buffer).  Pointer arithmetic moves
 \* by whole cells.  Cell width cw: 4 = hex macros, 8 = byte macros, 1 = bit-namespace macros (s.m = 0 / 1 / 2).
-Cell(cells, i) == IF i < 0 THEN 0 ELSE Small(Low(256, IShr(cells, 8 * i), 1))      \* total: outside accesses are cut by the harness
-SetCell(cells, i, b) == IF i < 0 THEN cells ELSE IAdd(ISub(cells, IShl(NatI(Cell(cells, i)), 8 * i)), IShl(NatI(b), 8 * i))
+Cell(cells, i) == IF i < 0 \/ i > 1000 THEN 0 ELSE Small(Low(256, IShr(cells, 8 * i), 1))      \* total: outside accesses are cut by the harness
+SetCell(cells, i, b) == IF i < 0 \/ i > 1000 THEN cells ELSE IAdd(ISub(cells, IShl(NatI(Cell(cells, i)), 8 * i)), IShl(NatI(b), 8 * i))
 Idx(x) == IF x.neg THEN 0 - Small(x) ELSE Small(x)         \* small signed integer value of a pointer / index
 IntOf(k) == IF k < 0 THEN INeg(NatI(0 - k)) ELSE NatI(k)
 XorB(a, b) == Small(IBitwise("^", NatI(a), NatI(b)))
